@@ -32,8 +32,8 @@
                    fails with ErrNotFound.  The model is the sequential work-list
                    version with a visited list (= the tracker) and fuel; the result
                    [ok=false] means out of fuel (excluded by the theorems'
-                   hypotheses; Proofs/GraphMem.v shows enough fuel always exists for
-                   the final state reached).  Which interleaving Go picks does not
+                   hypotheses; Proofs/GraphMem.v [load_terminates] shows that enough
+                   fuel exists for every finite universe).  Which interleaving Go picks does not
                    matter: the final graph is characterised in Proofs/GraphMem.v
                    independently of the order (index_all_nodes + Inv).
    content n       what content.Successors returns for key n: a function of the key
